@@ -79,7 +79,14 @@ where
         PRECISION_MUST_BE_NONZERO: PRECISION > 0;
     );
 
-    if probabilities.len() < 2 || probabilities.len() > Probability::max_value().as_() {
+    // Each symbol needs a weight of at least one, so there can't be more than `2^PRECISION`
+    // symbols (and, if `PRECISION == Probability::BITS`, not more than `Probability::MAX`).
+    let max_len = if PRECISION == Probability::BITS {
+        Probability::max_value().as_()
+    } else {
+        1usize.checked_shl(PRECISION as u32).unwrap_or(usize::MAX)
+    };
+    if probabilities.len() < 2 || probabilities.len() > max_len {
         return Err(());
     }
 
